@@ -134,7 +134,7 @@ Ltac consts :=
 Ltac types t HT :=
   let w := fresh "w" in let s := fresh "s" in
   destruct t as [w s]; unfold WT, W in HT; cbn [bits] in HT;
-  destruct HT as [ -> | [ -> | [ -> | -> ] ] ]; destruct s.
+  destruct HT as [ -> | [ -> | [ -> | -> ] ] ]; destruct s; cbn [bits sgn] in *.
 
 Lemma in_ty_range t x : in_ty t x = true <-> imin t <= x <= imax t.
 Proof. unfold in_ty. lia. Qed.
